@@ -68,6 +68,13 @@ def gen_problem(rng, np, stats, dmax=5, lognormal=True):
         if rng.random() < 0.3:
             i, j = rng.sample(range(d), 2)
             R[i, j] = R[j, i] = 0.0
+        if d >= 3 and rng.random() < 0.3:
+            # only entries away from the first off-diagonal: e.g. variables 0 and 2 correlated, 0-1 and 1-2 not
+            R = np.eye(d)
+            for _ in range(rng.choice([1, 1, 2])):
+                i = rng.randrange(0, d - 2)
+                j = rng.randrange(i + 2, d)
+                R[i, j] = R[j, i] = rng.choice([0.6, -0.5, 0.3])
         if np.min(np.linalg.eigvalsh(R)) < 0.05:
             R = np.eye(d)
     else:
@@ -106,6 +113,19 @@ def nataf_stream(res, rng, n):
                                  'with a positive-definite correlation matrix', 'input': case, 'impl_output': repr(e)[:200]})
             continue
         case.update({'x': x.tolist(), 'u': u.tolist()})
+        # in the latent normal space z_i = Phi^-1( F_i( x_i ) ) the map getX is linear, z = L u: its matrix M is read off from d + 1 evaluations,
+        # and a standard normal U gives Z with covariance M M^T, which must be the latent correlation matrix rhoZ of the object (whose entries are
+        # compared with the closed forms below) - the correlation clause itself, evaluated on the implementation
+        try:
+            zof = lambda xx: np.array([stats.norm.ppf(ds.cdf(v)) for ds, v in zip(dists, xx)], dtype=float)
+            z0 = zof(nat.getX([0.0] * d)[0])
+            M = np.column_stack([zof(nat.getX([1.0 if kk == jj else 0.0 for kk in range(d)])[0]) - z0 for jj in range(d)])
+            if not np.allclose(M @ M.T, np.array(nat.rhoZ, dtype=float), rtol=1e-7, atol=1e-8) or not np.allclose(z0, 0.0, atol=1e-9):
+                res.failures.append({'signature': 'nataf-model:latent-covariance:' + json.dumps(case), 'clause': 'the variables produced from a standard normal U do not have '
+                                     'the latent correlation rhoZ of the object (getX is not z = L u with L L^T = rhoZ)', 'input': case,
+                                     'impl_output': {'covariance_of_Z': (M @ M.T).tolist(), 'rhoZ': np.array(nat.rhoZ).tolist()}})
+        except Exception as e:  # noqa
+            res.failures.append({'signature': 'nataf-model:getX-raised:' + json.dumps(case), 'clause': 'getX raised on a valid point', 'input': case, 'impl_output': repr(e)[:200]})
         reqs.append(' '.join(['nataf', str(d), ','.join(kinds), fcsv(p1), fcsv(p2), fcsv(R.flatten()), fcsv(np.array(nat.rhoZ).flatten()),
                               fcsv(x), fcsv(u)]))
         meta.append((case, nat, U, JU, X, JX, d))
